@@ -224,7 +224,9 @@ def run_conflict(rec, case):
     first = sorted(expect)[0]
     for which, user in (("same-axis", {first: {"center": expect[first]["center"]}}),
                         ("other-axis", {"Q": {"center": expect[first]["center"]}}),
-                        ("same-and-other", {first: dict(expect[first]), "Q": {"center": expect[first]["center"]}})):
+                        ("same-and-other", {first: dict(expect[first]), "Q": {"center": expect[first]["center"]}}),
+                        # a mapping that is given but names nothing is still a user-supplied coords argument
+                        ("empty-mapping", {}), ("empty-ordered-mapping", __import__("collections").OrderedDict())):
         c2 = dict(case, conflict=which)
         rec.case(tuple(sorted((str(k), str(v)) for k, v in c2.items())), True, sample=c2)
         try:
